@@ -6,6 +6,7 @@ import Gonuts.Model.SelectDriver
 import Gonuts.Model.SpecDriver
 import Gonuts.Model.WireDriver
 import Gonuts.Model.WalletDriver
+import Gonuts.Model.MintDriver
 /-!
   Line-protocol driver.  Reads one S-expression per line `(cmd arg…)`, answers one line.
   Stateless commands are dispatched by name; stateful sessions (mint model) live in `St`.
@@ -14,7 +15,7 @@ import Gonuts.Model.WalletDriver
 open Gonuts Gonuts.Model
 
 structure St where
-  dummy : Unit := ()
+  mint : Model.MintDriver.Sess := {}
 
 def u64? (s : Sexp) : Option UInt64 := do
   let n ← s.asNat?
@@ -50,6 +51,10 @@ def step (st : St) (line : String) : St × String :=
     if cmd.startsWith "arith." then
       match arith cmd args with
       | some out => (st, out.render)
+      | none => (st, "(bad-op)")
+    else if cmd.startsWith "mint." then
+      match Model.MintDriver.handle st.mint cmd args with
+      | some (m', out) => ({ st with mint := m' }, out.render)
       | none => (st, "(bad-op)")
     else
       let r :=
